@@ -9,6 +9,7 @@ import (
 	"slices"
 	"strings"
 	"sync"
+	"syscall"
 	"time"
 
 	"github.com/containerd/continuity/fs"
@@ -354,9 +355,13 @@ func (c *copier) copy(ctx context.Context, src, srcComponents, target string, ov
 		return errors.Wrapf(err, "failed to stat %s", src)
 	}
 	targetFi, err := os.Lstat(target)
-	if err != nil && !os.IsNotExist(err) {
+	if err != nil && !os.IsNotExist(err) && !errors.Is(err, syscall.ENOTDIR) {
 		return errors.Wrapf(err, "failed to stat %s", src)
 	}
+	// (ENOTDIR: a non-directory of the destination stands where a source
+	// directory is walked. There is no target then; whether that matters is
+	// decided where something is written: an entry the patterns do not
+	// select writes nothing)
 
 	include := true
 	var (
